@@ -15,6 +15,8 @@ import (
 	"math/rand"
 	"os"
 	"path/filepath"
+	"runtime"
+	"strings"
 	"sync"
 	"sync/atomic"
 	"time"
@@ -321,10 +323,37 @@ func runSet(run *report.Run, s setSpec, scratch string) {
 			}
 		}(j, st)
 	}
-	wg.Wait()
+	// the instances stop by themselves when the run is over (their last step is Cleanup); an update
+	// pass or a Cleanup that never returns must not end as a watchdog timeout of the whole check
+	allDone := make(chan struct{})
+	go func() { wg.Wait(); close(allDone) }()
+	stalled := ""
+	select {
+	case <-allDone:
+	case <-time.After(total + 60*time.Second):
+		buf := make([]byte, 4<<20)
+		n := runtime.Stack(buf, true)
+		for _, g := range strings.Split(string(buf[:n]), "\n\n") {
+			if strings.Contains(g, "caddy-revocation-validator/crl") && (strings.Contains(g, "updateCRLs") || strings.Contains(g, ").Cleanup(")) {
+				if len(g) > 1500 {
+					g = g[:1500]
+				}
+				stalled += strings.ReplaceAll(g, "\n", " | ") + " || "
+			}
+		}
+		if stalled == "" {
+			stalled = "(no goroutine inside an update pass or Cleanup found)"
+		}
+	}
 	end := now()
 	close(stopProbe)
 	desc := s.String()
+	if stalled != "" {
+		is := s.Instances[0]
+		run.Eval(1)
+		run.Violation(fmt.Sprintf("%s.%s.sig-%s-%s.instances-%d.update-pass-or-cleanup-never-returned", is.Source, is.Fetch, modeName(is.SigMode), is.Signer, len(s.Instances)), fmt.Sprintf("%s: 60 s after the end of the run an update pass or Cleanup has still not returned: %s", desc, stalled), &report.Replay{Case: map[string]any{"set": desc}, Files: map[string][]byte{"goroutines.txt": []byte(stalled)}})
+		return
+	}
 	if late := time.Duration(lateMax.Load()); late > 450*time.Millisecond {
 		run.Inconclusive(fmt.Sprintf("timers up to %v late during %s", late, desc))
 		return
